@@ -70,6 +70,30 @@ def naive_answers(stored, filters):
     return outs
 
 
+def sub_filter(f, rng):
+    """A filter whose index keys are a strict subset of `f`'s: one constraint of the innermost
+    component filter that has several (a time-range counts as a prop-filter on DTSTART)."""
+    import copy
+    g = copy.deepcopy(f)
+    node = g
+    while node.get("comps") and not (node.get("props") or node.get("tr")):
+        node = node["comps"][0]
+    cands = [("p", i) for i in range(len(node.get("props", [])))]
+    if node.get("tr"):
+        cands.append(("t", 0))
+    if len(cands) + len(node.get("comps", [])) < 2 and not node.get("tr"):
+        return None
+    which = rng.choice(cands)
+    node.pop("comps", None)
+    if which[0] == "t":
+        node.pop("tr", None)
+        node["props"] = [{"name": "DTSTART"}]
+    else:
+        node.pop("tr", None)
+        node["props"] = [node["props"][which[1]]]
+    return g
+
+
 def store_histories(chk, n_hist, reps):
     for h in range(n_hist):
         kind = chk.rng.choice(["bare-mem", "tree"])
@@ -87,8 +111,14 @@ def store_histories(chk, n_hist, reps):
             steps = []
             schedule = []
             for f in filters:
+                g = sub_filter(f, chk.rng) if chk.rng.random() < 0.5 else None
+                if g is not None and not g.get("nd"):
+                    # warm the index with part of the keys first: the full filter then finds some of
+                    # its keys indexed and others not
+                    schedule += [("q", g)] * reps
+                    chk.count("partial_index_warmups")
                 schedule += [("q", f)] * (reps if chk.rng.random() < 0.7 else 2)
-            chk.rng.shuffle(schedule) if chk.rng.random() < 0.4 else None
+            chk.rng.shuffle(schedule) if chk.rng.random() < 0.3 else None
             # writes in between
             for k in range(chk.rng.randint(1, 3)):
                 pos = chk.rng.randrange(len(schedule) + 1)
